@@ -84,6 +84,14 @@ def eval_call(I: Interp, node: ast.Call, fr: Frame):
             return SV(smt.mk_int(st.epoch), T.INT)
         if n == "n_events":
             return SV(smt.mk_int(st.events_len), T.INT)
+        if n in ("event_kind", "event_arg"):  # ghost event log: event_kind(i) is a string, event_arg(i, k) the k-th argument
+            i_, _ = I.num(I.ev(node.args[0], fr))
+            if n == "event_kind":
+                return SV(z3.Select(_evarr(st, "evk"), i_), T.ANY)
+            kk = I.ev(node.args[1], fr).c
+            return SV(z3.Select(_evarr(st, f"eva{kk}"), i_), T.ANY)
+        if n == "ev":  # ev("name"): the value event_kind() has for events of that name
+            return SV(smt.mk_int(smt.STR.id("ev:" + I.ev(node.args[0], fr).c)), T.ANY)
         if n == "unchanged":  # no object that existed at entry has been written
             old_ep = st.old_stack[-1].get("__epoch__", st.epoch_entry) if st.old_stack else st.epoch_entry
             return I.as_bool_sv(st.epoch == old_ep)
@@ -118,6 +126,16 @@ def eval_call(I: Interp, node: ast.Call, fr: Frame):
             from .lib import valid_mask_term
             m = I.to_sv(I.ev(node.args[0], fr))
             return I.as_bool_sv(valid_mask_term(smt.ipval(m.t)))
+        if n in ("dict_key", "dict_val"):  # j-th key / value of a dict in iteration (insertion) order
+            d = I.to_sv(I.ev(node.args[0], fr))
+            j, _ = I.num(I.ev(node.args[1], fr))
+            dty = T.strip_opt(d.ty)
+            k = SV(z3.Select(z3.Select(st.arr("dkeys"), smt.rid(d.t)), j), dty.a[0] if dty.k == "dict" and dty.a else T.ANY)
+            if n == "dict_key":
+                return k
+            v = I.dict_get(SV(d.t, dty if dty.k == "dict" else T.DICT()), k)
+            st.assume_wt(v)
+            return v
         if n == "fresh":  # fresh(x): x was allocated during this call
             v = I.to_sv(I.ev(node.args[0], fr))
             base = st.fresh_base[-1] if st.fresh_base else st.alloc_entry
@@ -204,7 +222,7 @@ def apply_callable(I: Interp, callee, args, kwargs, fr, node=None):
     if isinstance(callee, PLog):
         return const(None)
     if isinstance(callee, PBound):
-        return call_function(I, callee.finfo, callee.selfv, args, kwargs, fr, node)
+        return call_function(I, callee.finfo, callee.selfv, args, kwargs, fr, node, callee.exact)
     if isinstance(callee, PFunc):
         return call_closure(I, callee, args, kwargs, fr, node)
     if isinstance(callee, PClass):
@@ -437,20 +455,44 @@ def find_contract(finfo: FuncInfo, selfv) -> Optional[Contract]:
     return None
 
 
-def call_function(I: Interp, finfo: FuncInfo, selfv, args, kwargs, fr: Frame, node=None):
+def overriders(finfo: FuncInfo):
+    if finfo.cls is None:
+        return []
+    return [c.name for c in finfo.cls.subclasses() if c is not finfo.cls and finfo.name in c.methods]
+
+
+def call_function(I: Interp, finfo: FuncInfo, selfv, args, kwargs, fr: Frame, node=None, exact=False):
     st = I.st
     if finfo.cls is not None and finfo.cls.name in LOG_CLASSES:
         return const(None)
     top: Contract = st.cfg.get("contract")
     key = finfo.key
     con = find_contract(finfo, selfv)
+    is_self_call = selfv is not None and fr.selfv is not None and isinstance(selfv, SV) and isinstance(fr.selfv, SV) and z3.eq(selfv.t, fr.selfv.t)
+    if not exact and not is_self_call and finfo.cls is not None and isinstance(selfv, SV):
+        ov = overriders(finfo)
+        if ov:
+            dcon = REG.dispatch.get(key)
+            if dcon is not None:
+                st.log.append(f"dynamic dispatch on {finfo.qualname}: dispatch contract used (covers overrides in {ov[:6]}{'...' if len(ov) > 6 else ''})")
+                return apply_contract(I, dcon, finfo, selfv, args, kwargs, fr, node)
+            st.log.append(f"dynamic dispatch on {finfo.qualname}: resolved by {finfo.cls.name}'s own contract/body; overriding subclasses {ov[:6]}{'...' if len(ov) > 6 else ''} are assumed to refine it")
     force_inline = (top is not None and key in top.inline) or (fr.contract is not None and key in fr.contract.inline)
+    if con is None and not exact and not force_inline and finfo.cls is not None and not is_self_call and key not in REG.inline:
+        # an override reached through a receiver of the overriding class: the base method's dispatch contract covers it
+        for base in finfo.cls.mro()[1:]:
+            bm = base.methods.get(finfo.name)
+            if bm is not None and bm.key in REG.dispatch:
+                st.log.append(f"call of {finfo.qualname}: dispatch contract of {bm.qualname} used")
+                return apply_contract(I, REG.dispatch[bm.key], bm, selfv, args, kwargs, fr, node)
     if con is not None and not force_inline:
         return apply_contract(I, con, finfo, selfv, args, kwargs, fr, node)
     allowed = force_inline or key in REG.inline or finfo.is_property or single_return_expr(finfo.node) is not None \
         or trivially_inlinable(finfo)
-    if "abstractmethod" in finfo.decorators and not force_inline:
+    if "abstractmethod" in finfo.decorators and not force_inline and key not in REG.inline and not exact:
         raise Refuse(f"call of abstract {key} without contract")
+    if exact:
+        allowed = True  # super().m(): exactly this body
     if not allowed:
         raise Refuse(f"call of {key} (line {getattr(node, 'lineno', '?')}): no contract and not on the inline list")
     return inline_call(I, finfo, selfv, args, kwargs, fr, node)
@@ -515,6 +557,10 @@ def apply_contract(I: Interp, con: Contract, finfo: FuncInfo, selfv, args, kwarg
     old["__epoch__"] = st.epoch
     old["__evlen__"] = st.events_len
     old_alloc = st.alloc
+    pending_events = []
+    for ev in con.emits:  # event arguments are values at the moment of the call
+        cond = spec_bool(I, ev[2], sf) if len(ev) > 2 and ev[2] else z3.BoolVal(True)
+        pending_events.append((ev[0], [I.to_sv(ev_spec(I, a, sf)).t for a in ev[1]], cond))
     if con.raises and not st.guards and not st.spec_depth:
         # the callee may raise (only) under the conditions its contract lists
         names = list(con.raises)
@@ -551,8 +597,8 @@ def apply_contract(I: Interp, con: Contract, finfo: FuncInfo, selfv, args, kwarg
         st.fresh_base.pop()
     if not st.guards and st.solver.check() == z3.unsat:
         raise Refuse(f"contract of {finfo.key} is inconsistent with the state at its call site (line {line}): vacuous proof refused")
-    for ev in con.emits:
-        emit_event(I, ev, sf)
+    for kind, evargs, cond in pending_events:
+        append_event(st, kind, evargs, cond)
     st.log.append(f"contract {finfo.key}")
     st.call_records.append({"callee": finfo.key, "line": line, "result": result, "heap_after": dict(st.heap)})
     return result
@@ -566,6 +612,14 @@ def emit_event(I: Interp, ev, sf: Frame):
         cond = spec_bool(I, ev[2], sf)
     args = [I.to_sv(ev_spec(I, a, sf)).t for a in argexprs]
     append_event(st, kind, args, cond)
+
+
+def _evarr(st, nm):
+    key = "g:" + nm
+    if key not in st.heap:
+        st.heap[key] = z3.Const("H0_" + key, smt.ArrIV)
+        st.entry_heap.setdefault(key, st.heap[key])
+    return st.heap[key]
 
 
 def append_event(st, kind, args, cond=None):
@@ -645,8 +699,19 @@ def _havoc(I: Interp, modifies, sf: Frame):
         tree = parse_expr(m)
         if isinstance(tree, ast.Attribute):
             head = tree.value
-            if isinstance(head, ast.Name) and (head.id == "_" or (not sf.has(head.id) and isinstance(sf.module.resolve_name(head.id), ClassInfo)) or head.id == "ANY"):
+            if isinstance(head, ast.Name) and head.id in ("_", "ANY"):
                 st.setarr("f:" + tree.attr, st.fresh("hv_" + tree.attr, smt.ArrIV))
+                continue
+            ci = class_named(head, sf)
+            if ci is not None:
+                # class-restricted havoc: only objects of (subclasses of) the class may differ
+                key = "f:" + tree.attr
+                cur = st.arr(key)
+                new = st.fresh("hv_" + tree.attr, smt.ArrIV)
+                rr = z3.Int("r!hv")
+                st.assume(z3.ForAll([rr], z3.Implies(z3.Not(st.subclass_pred(z3.Select(st.arr("cls"), rr), ci)),
+                                                      z3.Select(new, rr) == z3.Select(cur, rr))))
+                st.setarr(key, new)
                 continue
             base = ev_spec(I, ast.unparse(head), sf)
             if not isinstance(base, SV):
@@ -654,6 +719,24 @@ def _havoc(I: Interp, modifies, sf: Frame):
             st.setf(smt.rid(base.t), tree.attr, st.fresh("hv_" + tree.attr, Val))
             continue
         raise Refuse(f"modifies clause {m}")
+
+
+def class_named(head, sf: Frame):
+    """`Class.attr` in a modifies clause: the Name (or dotted name) resolves to a repo class and is not a local."""
+    if isinstance(head, ast.Name) and not sf.has(head.id):
+        r = sf.module.resolve_name(head.id)
+        if isinstance(r, ClassInfo):
+            return r
+        try:
+            return Repo_get().class_by_name(head.id)
+        except KeyError:
+            return None
+    return None
+
+
+def Repo_get():
+    from .repo import Repo
+    return Repo.get()
 
 
 # --------------------------------------------------------------------------------------------- constructors
@@ -677,6 +760,8 @@ def construct(I: Interp, ci: ClassInfo, args, kwargs, fr: Frame, node=None):
         return SV(smt.simp(res), T.ENUM(ci))
     if any(b.split(".")[-1] in EXC_BASES or b.endswith("Error") or b.endswith("Warning") for b in ci.all_ext_bases()):
         return PExt("exc." + ci.name)
+    if ci.name in LOG_CLASSES:
+        return PLog()
     init = ci.find_method("__init__")
     con = REG.contracts.get(init.key) if init is not None else None
     if not ci.is_pydantic and init is not None and con is None and init.key not in REG.inline:
